@@ -118,7 +118,7 @@ func (s *PfcpServer) main(wg *sync.WaitGroup) {
 			s.ServeReport(&sr)
 		case rcvPkt := <-s.rcvCh:
 			s.log.Tracef("receive buf(len=%d) from rcvCh", len(rcvPkt.Buf))
-			if len(rcvPkt.Buf) == 0 {
+			if rcvPkt.RemoteAddr == nil && len(rcvPkt.Buf) == 0 {
 				// receiver closed
 				return
 			}
